@@ -98,11 +98,12 @@ func c17nRun(c *core.Ctx) {
 	// a client that was refused does not necessarily end by itself (that is not this property's business): every
 	// run gets 12 s, which is ample for the prompt (it appears with the client's first statistics line after 3 s) plus a hand-shake on the loopback interface; what it
 	// printed until then decides.  Each run has its own HOME.
+	limit := 12 * time.Second
 	run := func(id int, knownHosts, answer string) string {
 		h := fmt.Sprintf("%s/run-%d", home, id)
 		os.MkdirAll(h+"/.ssh", 0o700)
 		os.WriteFile(h+"/.ssh/known_hosts", []byte(knownHosts), 0o600)
-		ctx, cancel := context.WithTimeout(context.Background(), 12*time.Second)
+		ctx, cancel := context.WithTimeout(context.Background(), limit)
 		defer cancel()
 		cmd := exec.CommandContext(ctx, dcat, "--noColor", "--cfg", "none", "--servers", "localhost:"+port, "--user", "alice", "--key", keyFile, "--files", file)
 		cmd.Env = append(os.Environ(), "HOME="+h)
@@ -163,6 +164,14 @@ func c17nRun(c *core.Ctx) {
 			kinds, answer, nameOK, nameOther, out := j.kinds, j.answer, j.nameOK, j.nameOther, outs[i]
 			c.Count(fmt.Sprintf("%v|%q", kinds, answer))
 			proceeded := strings.Contains(out, "CONTENT-ONLY-FOR-TRUSTED-HOSTS")
+			if !proceeded && (nameOK || answer == "y\n") {
+				// "did not go ahead" is a negative observation under a time limit: on a loaded machine confirm it
+				// with a generous limit before believing it
+				limit = 90 * time.Second
+				out = run(100000+i, j.kh, j.answer)
+				limit = 12 * time.Second
+				proceeded = strings.Contains(out, "CONTENT-ONLY-FOR-TRUSTED-HOSTS")
+			}
 			// the name the user asked for decides: listed with the presented key -> trusted; otherwise the user is asked
 			want := nameOK || answer == "y\n"
 			if nameOther && !nameOK {
